@@ -28,12 +28,33 @@
      + t^2 * an explicit polynomial remainder, for every t, every direction, every depth: the coded derivatives ARE
      the gradient of the weighted sum (over Z or Q the first-order coefficient of a polynomial identity in t is unique).
 
+   EXTENSION (second half of this file; models C04Conv.v and C04Pool.v, proofs C04SumProofs / C04Conv*Proofs / C04PoolProofs):
+   * Conv2DModel, index level as coded (im2mat / im2mat_pad + gemm of conv2d.hpp on the whole batch, reorder NHWC <-> CHWN,
+     updateBackpropFilters with the extra zero row / column for even filter sizes, offset on the (pixels x filters) view of the raw
+     storage, parameter layout filters [filter][row][column][channel] then offset), geometry hypothesis geo_ok = filter sizes, channels,
+     filters >= 1 and, for Padding::Valid, filter <= image; ZeroPad needs no such bound (filters larger than the image included):
+       - C04_conv_batch_eq_single, C04_conv_param_roundtrip (any ring-free carrier);
+       - C04_conv_derivative_core: for ANY delta, <delta, first-order change of convolution + offset> =
+         <coded weightedParameterDerivative, d theta> + <coded weightedInputDerivative, dX>  (the adjointness of both backward
+         convolutions, incl. the flip / enlarge / padding arithmetic);
+       - C04_conv_linear_derivative: Linear activation, FULL strength (exact polynomial identity in t with explicit t^2 term);
+       - C04_conv_derivative_partial: element-wise activation pair (phi, dphi), dual numbers, same `_partial` caveat as for layers.
+   * PoolingLayer: C04_pool_batch_eq_single; C04_pool_value_at_argmax (value loop = arg-max loop, any comparison);
+     C04_pool_tie_rule (first maximum in scan order, for a strict weak order); C04_pool_derivative_routes_to_argmax (cleared buffer,
+     coefficient goes to the arg max, pixels outside all patches get 0); C04_pool_derivative (exact affine identity in t wherever the
+     arg max does not move; at ties max pooling is not differentiable - nothing is claimed there beyond the tie rule).
+   * ResizeLayer (the interpolation is cubic B-spline, 16 clamped taps per pixel): C04_resize_batch_eq_single; C04_resize_derivative
+     (the map is linear in the image and the coded scatter-derivative is its adjoint: exact identity, no remainder, for arbitrary
+     weight / tap arithmetic).  NOT proved: that the weights are those of a B-spline or sum to one; the sample points of
+     setStructure are modelled as coded (for non-square targets they enumerate the target column-major; see the final report).
+
    COMPARED on every run (tools/c04.py, extracted model vs /repo): LinearModel x 7 activations, ConcatenatedModel of
-   LinearModels, Normalizer, Classifier.   MONITORED ONLY (batch vs single, round trip, finite differences):
-   NeuronLayer, Conv2DModel, PoolingLayer, ResizeLayer, RBFLayer, CMACMap, KernelExpansion, Ensemble, heterogeneous
-   concatenations with optimisation flags. *)
-From Coq Require Import List Arith Bool ZArith Ring.
-From SharkV Require Import C04Model C04Aux C04Proofs.
+   LinearModels, Normalizer, Classifier, Conv2DModel x activations (exact on dyadic inputs with Linear / Rectifier), PoolingLayer
+   (exact, incl. tie streams), ResizeLayer (bit-exact: the float instantiation performs the floating point operations in the order
+   of the C++).   MONITORED ONLY (batch vs single, round trip, finite differences):
+   NeuronLayer, RBFLayer, CMACMap, KernelExpansion, Ensemble, heterogeneous concatenations with optimisation flags. *)
+From Coq Require Import List Arith Bool ZArith Ring Lia.
+From SharkV Require Import C04Model C04Aux C04Proofs C04Conv C04SumProofs C04ConvProofs C04ConvDerivProofs C04ConvThmProofs C04ConvDualProofs C04Pool C04PoolProofs.
 Import ListNotations.
 
 (* ---------------- batch = single ---------------- *)
@@ -216,3 +237,208 @@ Proof. vm_compute. repeat split; reflexivity. Qed.
 Example C04_example_layer_wf :
   wf_dlayer Z 2 1 {| dW := [[(1, 0); (2, 1)]]%Z; db := [(5, 1)]%Z; dphi_v := fun x => (2 * x)%Z; dphi_d := fun _ => 2%Z |}.
 Proof. split; [reflexivity|split; [repeat constructor|right; reflexivity]]. Qed.
+
+(* ======================= Conv2DModel (C04Conv.v: index-level model of ConvolutionalModel.h, conv2d.hpp, Reorder.h) ======================= *)
+(* batch = single: row r of the batch result (one gemm over the patch matrix of ALL images, offset added on the
+   (pixels x filters) view of the raw storage) is the single evaluation of image r, for both padding modes, any filter size *)
+Theorem C04_conv_batch_eq_single :
+  forall (A : Type) (zero : A) (add mul : A -> A -> A) (m : conv A) (X X' : list (list A)) (r r' : nat),
+      geo_ok (cg m) -> r < length X -> r' < length X' -> nth r X [] = nth r' X' [] ->
+      nth r (conv_eval_batch zero add mul m X) [] = conv_eval zero add mul m (nth r X []) /\
+      nth r (conv_eval_batch zero add mul m X) [] = nth r' (conv_eval_batch zero add mul m X') [].
+Proof. exact conv_batch_eq_single. Qed.
+Print Assumptions C04_conv_batch_eq_single.
+
+Theorem C04_conv_param_roundtrip :
+  forall (A : Type) (zero : A) (g : cgeo) (a : act A) (theta : list A),
+    length theta = conv_nparams g ->
+    conv_params (conv_set zero g a theta) = theta /\ length (conv_params (conv_set zero g a theta)) = conv_nparams g /\
+    length (cflt (conv_set zero g a theta)) = gfh g * gfw g * gF g * gC g /\ length (coff (conv_set zero g a theta)) = gF g.
+Proof. exact conv_param_roundtrip. Qed.
+Print Assumptions C04_conv_param_roundtrip.
+
+(* the geometry hypothesis is satisfiable: 3x4 image, 2 channels, 3 filters of 2x3, both paddings *)
+Example C04_conv_geo_ok_example :
+  geo_ok {| gC := 2; gF := 3; gH := 3; gW := 4; gfh := 2; gfw := 3; gpad := true |} /\
+  geo_ok {| gC := 2; gF := 3; gH := 3; gW := 4; gfh := 2; gfw := 3; gpad := false |}.
+Proof. split; unfold geo_ok; simpl; repeat split; try lia; intros; try discriminate; lia. Qed.
+
+(* the coded derivatives, for ANY delta (= coefficients times activation derivative): the delta-weighted sum of the first-order
+   change of the convolution + offset in direction (dw ++ db, dX) is <coded parameter derivative, dw ++ db> + <coded input
+   derivative, dX>.  conv2d_kernel .. X dw is the convolution of the images X with the filters dw as coded (im2mat / im2mat_pad +
+   gemm); the right-hand side runs reorder NHWC->CHWN, a convolution with roles of batch and channels swapped, reorder back
+   (parameters) and the convolution with the flipped, for even sizes enlarged, backprop filters (inputs). *)
+Theorem C04_conv_derivative_core :
+  forall (A : Type) (zero one : A) (add mul sub : A -> A -> A) (opp : A -> A),
+    ring_theory zero one add mul sub opp eq ->
+    forall (g : cgeo) (X dX Ds : list (list A)) (w dw db : list A),
+      geo_ok g -> rows (conv_nin g) X -> rows (conv_nout g) Ds -> length Ds = length X -> length dX = length X ->
+      length dw = conv_nflt g ->
+      let lin := fun (Y : list (list A)) (v : list A) =>
+                   conv2d_kernel zero add mul (gC g) (gF g) (gH g) (gW g) (gfh g) (gfw g) (pad_h g) (pad_w g) Y v in
+      bsum zero add (length X) (fun r => bsum zero add (conv_nout g) (fun o =>
+        mul (get zero (nth r Ds []) o)
+            (add (add (get zero (nth r (lin X dw) []) o) (get zero (nth r (lin dX w) []) o)) (get zero db (o mod gF g))))) =
+      add (dot zero add mul (conv_wpd_d zero add mul g X Ds) (dw ++ db))
+          (fr A zero add mul (conv_wid_d zero add mul g (bp_filters zero g w) Ds) dX).
+Proof. exact conv_core. Qed.
+Print Assumptions C04_conv_derivative_core.
+
+(* Linear activation, FULL strength: the coefficient-weighted output sum at (theta + t dtheta, X + t dX) is a polynomial in t
+   whose first-order coefficient is <coded weightedParameterDerivative, dtheta> + <coded weightedInputDerivative, dX>;
+   both padding modes, any filter size (even sizes included), any number of channels / filters, any batch *)
+Theorem C04_conv_linear_derivative :
+  forall (A : Type) (zero one : A) (add mul sub : A -> A -> A) (opp : A -> A),
+    ring_theory zero one add mul sub opp eq ->
+    forall (g : cgeo) (theta dtheta : list A) (X dX Cf : list (list A)) (t : A),
+      geo_ok g -> length theta = conv_nparams g -> length dtheta = conv_nparams g ->
+      rows (conv_nin g) X -> rows (conv_nin g) dX -> length dX = length X -> rows (conv_nout g) Cf -> length Cf = length X ->
+      let m := conv_set zero g (id_act A) theta in
+      let mt := conv_set zero g (id_act A) (vadd add theta (vscale mul t dtheta)) in
+      let Xt := madd add X (map (vscale mul t) dX) in
+      fr A zero add mul Cf (conv_eval_batch zero add mul mt Xt) =
+      add (add (fr A zero add mul Cf (conv_eval_batch zero add mul m X))
+               (mul t (add (dot zero add mul (conv_wpd zero add mul m X Cf) dtheta)
+                           (fr A zero add mul (conv_wid zero add mul m X Cf) dX))))
+          (mul (mul t t)
+               (fr A zero add mul Cf
+                   (conv2d_kernel zero add mul (gC g) (gF g) (gH g) (gW g) (gfh g) (gfw g) (pad_h g) (pad_w g) dX
+                                  (firstn (conv_nflt g) dtheta)))).
+Proof. exact conv_linear_derivative. Qed.
+Print Assumptions C04_conv_linear_derivative.
+
+(* concrete numbers over Z: 2x3 image, 2 channels, 2 filters of 2x2 (even: enlarged backprop filters), ZeroPad, batch of 2:
+   value 22 at t = 0, first-order coefficient <gradient, direction> = 39, second-order coefficient 19, value 692 at t = 5 *)
+Example C04_conv_example_numbers :
+  let g := {| gC := 2; gF := 2; gH := 2; gW := 3; gfh := 2; gfw := 2; gpad := true |} in
+  let theta := [1;-2;0;3;2;1;-1;0; 0;1;1;-1;2;0;-2;1; 1;-1]%Z in
+  let dtheta := [0;1;1;0;-1;2;0;1; 1;0;-1;1;0;2;1;-1; 2;1]%Z in
+  let X := [[1;2;0;-1;3;1;2;0;-2;1;1;1]; [0;1;-1;2;1;0;3;-1;2;2;0;1]]%Z in
+  let dX := [[1;0;-1;1;0;2;1;-1;0;1;2;0]; [2;-1;0;1;1;0;-1;2;0;0;1;1]]%Z in
+  let Cf := [[1;-1;2;0;1;1;-2;1;0;3;-1;1]; [0;2;-1;1;1;0;2;-1;1;0;1;-2]]%Z in
+  let m := conv_set 0%Z g (id_act Z) theta in
+  geo_ok g /\ length theta = conv_nparams g /\ rows (conv_nin g) X /\ rows (conv_nout g) Cf /\
+  fr Z 0%Z Z.add Z.mul Cf (conv_eval_batch 0%Z Z.add Z.mul m X) = 22%Z /\
+  (dot 0%Z Z.add Z.mul (conv_wpd 0%Z Z.add Z.mul m X Cf) dtheta + fr Z 0%Z Z.add Z.mul (conv_wid 0%Z Z.add Z.mul m X Cf) dX = 39)%Z /\
+  fr Z 0%Z Z.add Z.mul Cf (conv_eval_batch 0%Z Z.add Z.mul (conv_set 0%Z g (id_act Z) (vadd Z.add theta (vscale Z.mul 5%Z dtheta)))
+                                            (madd Z.add X (map (vscale Z.mul 5%Z) dX))) = (22 + 5 * 39 + 25 * 19)%Z.
+Proof.
+  cbv zeta. split; [unfold geo_ok; simpl; repeat split; try lia; intros; discriminate|].
+  split; [reflexivity|]. split; [repeat constructor|]. split; [repeat constructor|].
+  vm_compute. repeat split; reflexivity.
+Qed.
+
+(* element-wise activation pair (phi, dphi) with the derivative written in the OUTPUT (NeuronLayers.h): the coded derivatives
+   are the tangent (the SAME model code run over dual numbers) of the weighted output sum, in every direction.
+   `_partial` for the same reason as C04_layer_derivative_partial: that dphi o phi is the analytic derivative of tanh / logistic /
+   fast sigmoid / rectifier away from 0 is monitored by finite differences, not proved.
+   full-strength statement: d/dt sum_r <C_r, f(theta + t dtheta, X_r + t dX_r)> at t = 0 over the reals equals the right-hand side. *)
+Theorem C04_conv_derivative_partial :
+  forall (A : Type) (zero one : A) (add mul sub : A -> A -> A) (opp : A -> A),
+    ring_theory zero one add mul sub opp eq ->
+    forall (g : cgeo) (phi dphi : A -> A) (thetaD : list (D A)) (XD : list (list (D A))) (Cf : list (list A)),
+      geo_ok g -> length thetaD = conv_nparams g -> rows (conv_nin g) XD -> rows (conv_nout g) Cf -> length Cf = length XD ->
+      let m := conv_set zero g (ew_act mul phi dphi) (map fst thetaD) in
+      let mD := conv_set (dzero A zero) g (ew_act (dmul A add mul) (phiD A mul phi dphi) (fun p => p)) thetaD in
+      let X := map (map fst) XD in
+      fr A zero add mul Cf (map (map snd) (conv_eval_batch (dzero A zero) (dadd A add) (dmul A add mul) mD XD)) =
+      add (dot zero add mul (conv_wpd zero add mul m X Cf) (map snd thetaD))
+          (fr A zero add mul (conv_wid zero add mul m X Cf) (map (map snd) XD)).
+Proof. exact conv_derivative_partial. Qed.
+Print Assumptions C04_conv_derivative_partial.
+
+(* ======================= PoolingLayer (C04Pool.v: maxPooling / maxPoolingDerivative as coded) ======================= *)
+Theorem C04_pool_batch_eq_single :
+  forall (A : Type) (zero : A) (ltb : A -> A -> bool) (g : pgeo) (X X' : list (list A)) (r r' : nat),
+    r < length X -> r' < length X' -> nth r X [] = nth r' X' [] ->
+    nth r (pool_eval_batch zero ltb g X) [] = pool_eval zero ltb g (nth r X []) /\
+    nth r (pool_eval_batch zero ltb g X) [] = nth r' (pool_eval_batch zero ltb g X') [].
+Proof. exact pool_batch_eq_single. Qed.
+Print Assumptions C04_pool_batch_eq_single.
+
+(* the value loop (vector max over the channels) and the arg-max loop of the derivative agree: the pooled value is the input at
+   the coded arg max - for ANY comparison `ltb`, any image size (also not divisible by the patch), any patch *)
+Theorem C04_pool_value_at_argmax :
+  forall (A : Type) (zero : A) (ltb : A -> A -> bool) (g : pgeo) (x : list A) (p c : nat),
+    p < pool_oh g * pool_ow g -> c < pC g ->
+    get zero (pool_eval_img zero ltb g x) (p * pC g + c) = get zero x (pool_amax zero ltb g x p c * pC g + c).
+Proof. exact pool_value. Qed.
+Print Assumptions C04_pool_value_at_argmax.
+
+(* tie rule: the scan goes row by row through the patch (the start pixel first); the coded arg max is the FIRST maximum:
+   everything scanned before it is strictly smaller, nothing scanned after it is larger *)
+Theorem C04_pool_tie_rule :
+  forall (A : Type) (zero : A) (ltb : A -> A -> bool) (g : pgeo) (x : list A) (p c : nat),
+    strict_weak A ltb ->
+    let a := pool_amax zero ltb g x p c in
+    let val := fun idx => get zero x (idx * pC g + c) in
+    exists L1 L2, patch_start g p :: patch g p = L1 ++ a :: L2 /\
+      (forall j, In j L1 -> ltb (val j) (val a) = true) /\ (forall j, In j L2 -> ltb (val a) (val j) = false).
+Proof. exact pool_tie_rule. Qed.
+Print Assumptions C04_pool_tie_rule.
+
+(* the derivative buffer is cleared (repair 41a616ff) and every coefficient is routed to the arg max of its patch and channel:
+   <coded input derivative, dx> = sum_{p,c} coef(p,c) * dx(argmax(p,c), c); pixels outside all patches get 0 *)
+Theorem C04_pool_derivative_routes_to_argmax :
+  forall (A : Type) (zero one : A) (add mul sub : A -> A -> A) (opp : A -> A),
+    ring_theory zero one add mul sub opp eq ->
+    forall (ltb : A -> A -> bool) (g : pgeo) (x coef dx : list A),
+      length dx = pool_nin g ->
+      length (pool_wid_img zero add ltb g x coef) = pool_nin g /\
+      dot zero add mul (pool_wid_img zero add ltb g x coef) dx =
+      bsum zero add (pool_oh g * pool_ow g) (fun p => bsum zero add (pC g) (fun c =>
+        mul (get zero coef (p * pC g + c)) (get zero dx (pool_amax zero ltb g x p c * pC g + c)))).
+Proof. exact pool_wid_adjoint. Qed.
+Print Assumptions C04_pool_derivative_routes_to_argmax.
+
+(* wherever the step t dX does not move any arg max (max pooling is differentiable exactly there), the weighted output sum is
+   affine in t with slope <coded input derivative, dX>: exact identity.  (At ties the function has a kink; the code then follows
+   the tie rule above, the finite-difference monitor skips those points.) *)
+Theorem C04_pool_derivative :
+  forall (A : Type) (zero one : A) (add mul sub : A -> A -> A) (opp : A -> A),
+    ring_theory zero one add mul sub opp eq ->
+    forall (ltb : A -> A -> bool) (g : pgeo) (X dX Cf : list (list A)) (t : A),
+      rows (pool_nin g) X -> rows (pool_nin g) dX -> length dX = length X -> rows (pool_nout g) Cf -> length Cf = length X ->
+      (forall r p c, r < length X -> p < pool_oh g * pool_ow g -> c < pC g ->
+          pool_amax zero ltb g (vadd add (nth r X []) (vscale mul t (nth r dX []))) p c = pool_amax zero ltb g (nth r X []) p c) ->
+      fr A zero add mul Cf (pool_eval_batch zero ltb g (madd add X (map (vscale mul t) dX))) =
+      add (fr A zero add mul Cf (pool_eval_batch zero ltb g X)) (mul t (fr A zero add mul (pool_wid zero add ltb g X Cf) dX)).
+Proof. exact pool_batch_derivative. Qed.
+Print Assumptions C04_pool_derivative.
+
+(* Z with < is a strict weak order; a 3x3 one-channel image with 2x2 patch (size not divisible) and a tie: the first maximum wins *)
+Example C04_pool_example :
+  strict_weak Z Z.ltb /\
+  let g := {| pH := 3; pW := 3; pC := 1; pph := 2; ppw := 2 |} in
+  pool_eval_img 0%Z Z.ltb g [1; 5; 9; 5; 2; 9; 7; 7; 7]%Z = [5%Z] /\
+  pool_amax 0%Z Z.ltb g [1; 5; 9; 5; 2; 9; 7; 7; 7]%Z 0 0 = 1 /\
+  pool_wid_img 0%Z Z.add Z.ltb g [1; 5; 9; 5; 2; 9; 7; 7; 7]%Z [4%Z] = [0; 4; 0; 0; 0; 0; 0; 0; 0]%Z.
+Proof.
+  split; [split; intros a b c; rewrite !Z.ltb_lt; lia|]. vm_compute. repeat split; reflexivity.
+Qed.
+
+(* ======================= ResizeLayer (C04Pool.v: splineInterpolation2D / ...Derivative as coded) ======================= *)
+Theorem C04_resize_batch_eq_single :
+  forall (A : Type) (zero : A) (add mul rsub rdiv : A -> A -> A) (ropp : A -> A) (ofnat : nat -> A) (floorn : A -> nat)
+         (g : rgeo) (X X' : list (list A)) (r r' : nat),
+    r < length X -> r' < length X' -> nth r X [] = nth r' X' [] ->
+    nth r (resize_eval_batch zero add mul rsub rdiv ropp ofnat floorn g X) [] = resize_eval zero add mul rsub rdiv ropp ofnat floorn g (nth r X []) /\
+    nth r (resize_eval_batch zero add mul rsub rdiv ropp ofnat floorn g X) [] = nth r' (resize_eval_batch zero add mul rsub rdiv ropp ofnat floorn g X') [].
+Proof. exact resize_batch_eq_single. Qed.
+Print Assumptions C04_resize_batch_eq_single.
+
+(* the interpolation (16 taps per output pixel with clamped indices, whatever the weights are) is a linear map of the image and the
+   coded input derivative (scatter into a cleared buffer) is its adjoint: the weighted output sum at X + t dX is EXACTLY its value at
+   X plus t * <coded input derivative, dX>, no remainder; `rsub rdiv ropp ofnat floorn` (the arithmetic that produces sample
+   points, B-spline weights and tap positions) are arbitrary *)
+Theorem C04_resize_derivative :
+  forall (A : Type) (zero one : A) (add mul sub : A -> A -> A) (opp : A -> A),
+    ring_theory zero one add mul sub opp eq ->
+    forall (rsub rdiv : A -> A -> A) (ropp : A -> A) (ofnat : nat -> A) (floorn : A -> nat) (g : rgeo)
+           (X dX Cf : list (list A)) (t : A),
+      rows (resize_nin g) X -> rows (resize_nin g) dX -> length dX = length X -> rows (resize_nout g) Cf -> length Cf = length X ->
+      fr A zero add mul Cf (resize_eval_batch zero add mul rsub rdiv ropp ofnat floorn g (madd add X (map (vscale mul t) dX))) =
+      add (fr A zero add mul Cf (resize_eval_batch zero add mul rsub rdiv ropp ofnat floorn g X))
+          (mul t (fr A zero add mul (resize_wid zero add mul rsub rdiv ropp ofnat floorn g Cf) dX)).
+Proof. exact resize_batch_derivative. Qed.
+Print Assumptions C04_resize_derivative.
